@@ -370,6 +370,7 @@ FAMILIES['out.file.rotate_output.c13'] = {'name': 'c13x', 'src': 'replay_c13x.cp
 FAMILIES['out.fd.rotate_output.c13'] = {'name': 'c13x', 'src': 'replay_c13x.cpp', 'argv': lambda u, i: ['fd2name']}
 FAMILIES['enc.rotate_output.fd.recover'] = {'name': 'c16r', 'src': 'replay_c16r.cpp', 'argv': lambda u, i: []}
 FAMILIES['enc.rotate_output.string.recover'] = {'name': 'c16r', 'src': 'replay_c16r.cpp', 'argv': lambda u, i: []}
+FAMILIES['out.file.close.c15'] = {'name': 'c16f', 'src': 'replay_c16f.cpp', 'argv': lambda u, i: []}
 FAMILIES['out.file.rotate_output.c16'] = {'name': 'c16f', 'src': 'replay_c16f.cpp', 'argv': lambda u, i: []}
 FAMILIES['out.gzip.rotate_output.c16'] = {'name': 'c16', 'src': 'replay_c16.cpp', 'argv': lambda u, i: []}
 
